@@ -101,7 +101,7 @@ def merge_unit(ctx, quick):
              "pairs, %s ordered triples, random 4-7-tuples; parts of 0-4 lines with leading '#' runs, blank lines, a last line without terminator, 4%% missing parts (FileNotFoundError), "
              "copy_header on / off; each case merged in two listing orders; model = natural-sort + header skipping; specification: the two orders give the same text unless two names share "
              "a sort key; non-trivial = at least two non-empty parts. %d cases" % (len(NAMES), "all" if not quick else "a quarter of the", len(cases)))
-    ctx.exhaustive = dict(domain="ordered pairs%s of %d chromosome names" % (" and triples" if not quick else " and a quarter of the ordered triples", len(NAMES)), size=len(cases))
+    ctx.exhaustive = dict(domain="ordered pairs%s of %d chromosome names" % (" and triples" if not quick else " and a quarter of the ordered triples", len(NAMES)), size=len(cases), complete=not quick)
 
 
 def part_variant():
